@@ -1,0 +1,10 @@
+//go:build verif
+
+// Contracts for the P2P error helpers (comment-only).
+package error
+
+//@ func Permanent
+//@   trusted
+//@   modifies nothing
+//@   ensures (result == nil) == (err == nil)
+//@   note wraps a non-nil error as permanent (backoff.Permanent returns nil only for nil)
